@@ -121,7 +121,7 @@ def _first_project_frame(text):
 
 
 def run_tool(cmd, stdin=None, env=None, timeout=30, cwd=None, stdin_file=None, stdout_file=None,
-             binary=None, san_dir=None, limit_as=None, stack_kb=None, pass_fds=()):
+             binary=None, san_dir=None, limit_as=None, stack_kb=None, pass_fds=(), pin_cpu=False):
     """Run one process.  Sanitizer reports are taken from stderr."""
     e = dict(os.environ)
     e["ASAN_OPTIONS"] = ASAN_OPTS
@@ -140,6 +140,12 @@ def run_tool(cmd, stdin=None, env=None, timeout=30, cwd=None, stdin_file=None, s
 
     def pre():
         os.setsid()
+        if pin_cpu:
+            try:
+                cpus = sorted(os.sched_getaffinity(0))
+                os.sched_setaffinity(0, {cpus[os.getpid() % len(cpus)]})
+            except OSError:
+                pass
         if stack_kb:
             import resource
             resource.setrlimit(resource.RLIMIT_STACK, (stack_kb * 1024, stack_kb * 1024))
